@@ -72,4 +72,9 @@ OvMul(W, a, b) == IF a * b <= WordMax(W) THEN <<a * b, FALSE>> ELSE <<(a * b) % 
 SatSub(a, b)   == IF a >= b THEN a - b ELSE 0
 \* `x as isize` of a W-bit word
 AsSigned(W, x) == IF x <= IWordMax(W) THEN x ELSE x - Pow2(W)
+\* s repeated k times (k >= 0)
+RepSeq(s, k) == [q \in 1..(k * Len(s)) |-> s[((q - 1) % Len(s)) + 1]]
+\* repetition counts at which narrow counters, block sizes and recursion limits change behaviour: every small count,
+\* the neighbours of 64 / 128 / 256 (a length or an offset kept in a u8 wraps at 256)
+RepCounts == (0..40) \cup {63, 64, 65, 127, 128, 129, 254, 255, 256, 257, 258}
 =============================================================================
